@@ -110,6 +110,37 @@ def run(ck, w):
         else:
             ck.ok(o)
 
+    o = ck.ob("C16.2d", "directory_is_empty says 'empty' only when the listing yields no entry at all: it lists the directory itself and never "
+                        "inspects, stats or filters the entries (an entry of any kind, a dangling link included, makes it non-empty)")
+    fam = lib.family("io::directory_is_empty")
+    if not fam:
+        ck.fail(o, "io::directory_is_empty", "anchor-missing", "directory_is_empty not found")
+    else:
+        allowed = re.compile(r"^std::fs::read_dir$|Try>?::branch$|::from_residual$|Iterator>?::next$|^std::iter::Iterator::(next|count)$|"
+                             r"Option::<T>::(is_none|is_some)$|IntoIterator>?::into_iter$|^std::convert::(From::from|Into::into)$|From<.*>>?::from$")
+        other = []
+        rd = []
+        for fb in fam:
+            for e in fb.events:
+                if e.bb not in fb.live or (e.macro or "").startswith("trace") or (e.macro or "").startswith("debug"):
+                    continue
+                if e.name == "std::fs::read_dir":
+                    rd.append((fb, e))
+                if not allowed.search(e.name) and not allowed.search(e.callee or ""):
+                    other.append((fb, e))
+        if not rd:
+            ck.fail(o, "io::directory_is_empty", "no read_dir", "directory_is_empty does not list the directory")
+        elif other:
+            fb, e = other[0]
+            ck.fail(o, "io::directory_is_empty", "entries are inspected",
+                    "directory_is_empty calls %s: whether an entry counts must not depend on what it is or points to" % e.name, e.site())
+        else:
+            src = flow.origins_x(lib, rd[0][0], rd[0][1].args[0])
+            if any(x[0] == "param" for x in src):
+                ck.ok(o, sites=[rd[0][1].site()])
+            else:
+                ck.fail(o, "io::directory_is_empty", "lists another directory", "read_dir argument derives from %s" % flow.origin_summary(src), rd[0][1].site())
+
     # ---- 3. paths stay below the destination -------------------------------------------------------------
     o = ck.ob("C16.3a", "restore(): the path given to restore_dir/restore_file/restore_symlink/DirDeferral is destination.join(&entry.apath[1..])")
     targets = []
